@@ -148,20 +148,22 @@ func vfH_conc_frames() {
 		}
 		rErr = err
 	})
-	pDeadline := time.Time{}
 	// the library's own best-effort timers (1 s) do not expire in this harness;
 	// the WriteControl caller's deadline does when the case split says so
 	vfTimersFire(false)
 	fires := false
 	if variant >= 1 {
 		fires = vfChoose(2) == 1
-		if fires {
-			pDeadline = time.Now().Add(time.Millisecond) // expires while the writer holds the connection
-		} else {
-			pDeadline = time.Now().Add(time.Hour)
-		}
 	}
 	vfGo(func() {
+		pDeadline := time.Time{}
+		if variant >= 1 {
+			if fires {
+				pDeadline = time.Now().Add(2 * time.Millisecond) // expires while the writer holds the connection
+			} else {
+				pDeadline = time.Now().Add(time.Hour)
+			}
+		}
 		vfTimersFire(fires)
 		pErr = c.WriteControl(PingMessage, []byte("hb"), pDeadline)
 		vfTimersFire(false)
